@@ -134,12 +134,14 @@ def abstract_module(root: ast.Module, source: str, typevar_nodes=()):
     def targets_of(body):
         out = []
 
-        def unpack(t):
+        def unpack(t):          # parsing._unpack_ast_target: names under tuples, lists and stars
             if isinstance(t, ast.Name):
                 out.append(t)
-            elif isinstance(t, ast.Tuple):
+            elif isinstance(t, (ast.Tuple, ast.List)):
                 for e in t.elts:
                     unpack(e)
+            elif isinstance(t, ast.Starred):
+                unpack(t.value)
         for st in body:
             if isinstance(st, (ast.AnnAssign, ast.AugAssign)):
                 unpack(st.target)
@@ -472,12 +474,28 @@ class Gen:
             ps = list(params)
             if ps and r.random() < 0.3:
                 ps[-1] = f"{ps[-1]}={self.expr(2)}"
+            # every kind of parameter: positional-only, *args / bare *, keyword-only, **kwargs
+            if ps and r.random() < 0.12:
+                ps.insert(r.randint(1, len(ps)), "/")
+            k2 = r.random()
+            if k2 < 0.2:
+                ps.append("*" + (self.name() if r.random() < 0.7 else r.choice(["args", "rest"])))
+            elif k2 < 0.28:
+                ps.append("*")
+            if ps and ps[-1].startswith("*") and (ps[-1] != "*" or r.random() < 2) and r.random() < 0.6 or (ps and ps[-1] == "*"):
+                ps.append(f"{self.name()}={self.expr(2)}")
             if r.random() < 0.15:
-                ps.append("*" + r.choice(["args", "rest"]))
+                ps.append("**" + (self.name() if r.random() < 0.7 else "kwargs"))
+            seen_p = set()
+            ps = [q for q in ps if q in ("/", "*") or (q.lstrip("*").split("=")[0] not in seen_p
+                                                      and not seen_p.add(q.lstrip("*").split("=")[0]))]
+            if ps and ps[-1] == "*":
+                ps.pop()
+            self.hist["param_kinds"] += sum(1 for q in ps if q.startswith("*") or q == "/")
             deco = [f"{pad}@{self.name()}"] if r.random() < 0.1 else []
             asy = "async " if r.random() < 0.08 else ""
             first = (["self"] if kind == "class" and r.random() < 0.8 else [])
-            head = f"{pad}{asy}def {self.name()}({', '.join(first + [p for p in ps if p.split('=')[0] != 'self'])}):"
+            head = f"{pad}{asy}def {self.name()}({', '.join(first + [p for p in ps if p.lstrip('*').split('=')[0] != 'self'])}):"
             body = self.block(ind + 1, depth + 1, "func")
             if r.random() < 0.5:
                 body.append(f"{pad}    return {self.expr()}")
@@ -576,6 +594,19 @@ TEMPLATES = {
     "class_body_use": "class K:\n    {A} = 1\n    {B} = {A} + 1\nprint(K.{B})\n",
     "class_body_alias": "def outer():\n    def {A}():\n        return 2\n    class K(object):\n        def {A}(self):\n            return 1\n        alias = {A}\n    return K().alias(), {A}()\nprint(outer())\n",
     "method_and_function": "def outer():\n    class K(object):\n        def {A}(self):\n            return {A}() + 1\n    def {A}():\n        return 2\n    return K().{A}()\nprint(outer())\n",
+    "vararg_shadow": "{A} = [7, 8, 9]\ndef total(*{A}):\n    return sum({A})\ndef g():\n    return len({A})\nprint(total(1, 2), g(), {A})\n",
+    "kwarg_shadow": "{A} = {{'a': 1}}\ndef show(**{A}):\n    return sorted({A})\ndef g():\n    return sorted({A})\nprint(show(b=2, c=3), g(), {A})\n",
+    "kwonly_shadow": "{A} = 10\ndef f(*, {A}=3):\n    return {A} + 1\ndef g():\n    return {A} * 2\nprint(f({A}=1), f(), g())\n",
+    "posonly_shadow": "{A} = 10\ndef f({A}, /):\n    return {A} + 1\ndef g():\n    return {A} * 2\nprint(f(1), g())\n",
+    "vararg_shadow_func": "def {A}():\n    return [1, 2, 3]\ndef count(*{A}):\n    return len({A})\nprint(count(), count(4, 5))\nprint({A}())\n",
+    "kwarg_shadow_local": "def outer():\n    {A} = {{'k': 1}}\n    def inner(**{A}):\n        return sorted({A})\n    return inner(z=1), sorted({A})\nprint(outer())\n",
+    "lambda_vararg_shadow": "{A} = 5\nf = lambda *{A}: len({A})\nprint(f(1, 2), {A})\n",
+    "ignore_on_use": "def scale(v):\n    {A} = 10\n    y = v * {A}  # pyrefact: ignore\n    return y + {A}\nprint(scale(2))\n",
+    "ignore_on_aug": "def compute(values):\n    {A} = 1\n    if values:\n        {A} *= len(values)  # pyrefact: ignore\n    return {A}\nprint(compute([1, 2, 3]))\n",
+    "ignore_on_global_use": "{A} = 3\ndef attempts():\n    return list(range({A}))  # pyrefact: ignore\nprint(attempts(), {A})\n",
+    "ignore_in_renamed_func": "def {A}(values):\n    return sum(values) + 1  # pyrefact: ignore\ndef report():\n    return {A}([1, 2, 3]) * 2\nprint(report(), {A}([4]))\n",
+    "ignore_on_class_use": "class {A}:\n    size = 4\ndef make():\n    return {A}()  # pyrefact: ignore\nprint(make().size, {A}.size)\n",
+    "ignore_on_binding": "def scale(v):\n    {A} = 10  # pyrefact: ignore\n    y = v * {A}\n    return y + {A}\nprint(scale(2))\n",
     "keyword_arg": "def f({A}=1):\n    return {A}\nprint(f({A}=2))\n",
     "func_name": "def {A}(v):\n    return v\nprint({A}(2))\n",
     "func_name_kw": "def {A}(v):\n    return v\n{B} = 3\nprint({A}(v={B}))\n",
